@@ -24,6 +24,7 @@ import PyAbel.Model.BasexCache
 import PyAbel.Model.RbasexBasis
 import PyAbel.Model.SPolyTerm
 import PyAbel.Model.Daun3
+import PyAbel.Model.Basex
 import PyAbel.Gen.Tables
 open PyAbel PyAbel.Proto
 
@@ -446,6 +447,17 @@ def handle (toks : List String) : String :=
     match namedMatrix name, n.toNat? with
     | some M, some n => showImg ⟨n, n, M⟩
     | _, _ => "bad-op"
+  -- basex M|Mc n nbf sigma  →  _bs_basex(n, sigma): projected basis M[i, k] or basis Mc[i, k] (nbf = round(n/sigma) is passed in)
+  | ["basex", which, n, nbf, sigma] =>
+    match n.toNat?, nbf.toNat?, parseFloat sigma with
+    | some n, some nbf, some sigma =>
+      let (ta, tb) := Basex.tables (nbf * nbf)
+      let lf := fun m => ta.getD m 0.0
+      let lh := fun m => tb.getD m 0.0
+      if which == "M" then showImg ⟨n, nbf, fun i k => (Basex.entry lf lh sigma i k).1⟩
+      else if which == "Mc" then showImg ⟨n, nbf, fun i k => (Basex.entry lf lh sigma i k).2⟩
+      else "bad-op"
+    | _, _, _ => "bad-op"
   -- daun3 n  →  _bs_daun(n, 3): value projections plus the smooth-derivative correction (tridiagonal solve)
   | ["daun3", n] =>
     match n.toNat? with
